@@ -19,6 +19,8 @@ Theorem C11_eval_as_fresh : forall h, wf_hist h = true ->
   forall id o, nth_error (heap (run facts_c11 h)) id = Some o -> o_live o = true ->
   eval (run facts_c11 h) id = fresh_obs (o_cls o) (cur_tl (run facts_c11 h)) (o_active o) (o_shape o).
 Proof. exact (eval_as_fresh facts_c11 interp_classes C11_facts_ok). Qed.
+Theorem C11_eval_all_fresh : forall h, wf_hist h = true -> snd (step facts_c11 (run facts_c11 h) EvalAll) = [EvAllObs true].
+Proof. exact (eval_all_fresh facts_c11 interp_classes C11_facts_ok). Qed.
 Theorem C11_eval_same_as_later_built : forall h, wf_hist h = true ->
   forall i j a b, nth_error (heap (run facts_c11 h)) i = Some a -> nth_error (heap (run facts_c11 h)) j = Some b -> o_live a = true -> o_live b = true ->
   o_cls a = o_cls b -> o_active a = o_active b -> o_shape a = o_shape b -> eval (run facts_c11 h) i = eval (run facts_c11 h) j.
@@ -45,6 +47,7 @@ Proof. exact optimizer_event_iff_name_changed_refuted. Qed.
 Print Assumptions C11_facts_ok.
 Print Assumptions C11_switch_invariant.
 Print Assumptions C11_eval_as_fresh.
+Print Assumptions C11_eval_all_fresh.
 Print Assumptions C11_eval_same_as_later_built.
 Print Assumptions C11_dead_not_called.
 Print Assumptions C11_registry_flushed.
